@@ -349,7 +349,7 @@ def run(tier, replay=None):
                     if kf:
                         if not any(k[0] is kf[0] for k in chk.known_hit):
                             chk.known(kf[0], "%s: bounds predicate %s accepts an out-of-range access when ptr+ptr_size wraps (e.g. %s); Lean witness "
-                                             "Thm/C06.is_valid_ptr_unsound_witness" % (kf[0]["id"], name, c.split(" ", 2)[2]))
+                                             "Thm/C06.is_valid_ptr_v452_unsound_witness" % (kf[0]["id"], name, c.split(" ", 2)[2]))
                     elif stats["unsound_reported"] < 5:
                         stats["unsound_reported"] += 1
                         chk.violation("unsound_%s_%d.json" % (name, stats["unsound_reported"]),
@@ -419,7 +419,7 @@ def run(tier, replay=None):
                 else:
                     chk.violation("f10_wrap.json", {"kind": "crash-on-crafted-elf", "engine": "fuzzmod", "harness": "h_fuzzmod", "flavour": "plain", "case": f10[1],
                                                     "implementation": xo[1][:500], "model_spec": "scan terminates normally",
-                                                    "note": "is_valid_ptr wrap-around (Lean witness is_valid_ptr_unsound_witness) reproduced on the real code"})
+                                                    "note": "is_valid_ptr wrap-around (Lean witness is_valid_ptr_v452_unsound_witness) reproduced on the real code"})
                     found = True
             stats["f10_reproducer"] = "crash" if ctl_ok and "CRASH" in xo[1] else ("no-crash" if ctl_ok else "not-run")
         n = 0
